@@ -374,13 +374,15 @@ class Check:
             "exhaustive": self.exhaustive,
             "details": self.details,
             "tlc_action_coverage": self.coverage_actions,
+            "explanation": rule,
         }
         if extra_cov:
             cov.update(extra_cov)
         ev = {"property_id": self.prop, "tier": self.tier, "seed": self.seed, "level": level, "coverage": cov,
               "assumptions": self.assumptions, "wall_s": round(wall, 1), "violations": len(self.violations)}
-        os.makedirs(os.path.join(ROOT, "evidence"), exist_ok=True)
-        with open(os.path.join(ROOT, "evidence", self.prop + ".json"), "w") as f:
+        evdir = "evidence" if self.prop.startswith("C") else "evidence_extra"
+        os.makedirs(os.path.join(ROOT, evdir), exist_ok=True)
+        with open(os.path.join(ROOT, evdir, self.prop + ".json"), "w") as f:
             json.dump(ev, f, indent=1)
         for k, what in self.known_hits:
             log("KNOWN-FINDING: property=%s %s" % (self.prop, k["text"]))
